@@ -18,7 +18,7 @@ ASSUMPTIONS = ['LM scores are compared within 1e-8 (float64 LMs)', 'ties of the 
                'the "LM state returned" is compared with the state after the arg-max transcript from the same start state']
 N = {'quick': 1600, 'thorough': 60000}
 CLASSES = ['hash', 'hash', 'hash_init', 'hash_scale0', 'torch', 'hash_eos', 'hash', 'torch_init', 'hash_sequence', 'torch_sequence', 'homographs', 'wide_beam']
-REQUIRED = ['torch_lms_with_the_line_end_symbol_first', 'factory_built_decoders', 'homograph_alphabets', 'beams_over_1024_prefixes', 'torch_lms_arriving_in_training_mode', 'reweighted_bag_checked', 'shifted_bag_checked', 'sequence_calls_checked', 'lm_scores_checked', 'best_checked', 'scale0_checked', 'confidence_checked', 'state_checked', 'beam_compared', 'torch_cases', 'nonunit_scale_best_checked']
+REQUIRED = ['supplied_start_states_equal_to_zero', 'lm_updated_in_place', 'torch_lms_with_the_line_end_symbol_first', 'factory_built_decoders', 'homograph_alphabets', 'beams_over_1024_prefixes', 'torch_lms_arriving_in_training_mode', 'reweighted_bag_checked', 'shifted_bag_checked', 'sequence_calls_checked', 'lm_scores_checked', 'best_checked', 'scale0_checked', 'confidence_checked', 'state_checked', 'beam_compared', 'torch_cases', 'nonunit_scale_best_checked']
 SHARDS = {'quick': 8, 'thorough': 16}
 
 
@@ -97,6 +97,9 @@ def check(case, mon, ctx):
         init_h, h0v = None, 7
         if case['init']:
             h0v = lm.state_after(case['prev'], 7) * 13 % lm.MOD
+            if case['lm_seed'] % 4 == 0:
+                h0v = 0                         # a state like any other for the model; as a one-element array it is 'false'
+                mon.count('supplied_start_states_equal_to_zero')
             init_h = np.array([h0v], dtype=np.int64)
 
         def score(prefix, with_eos):
@@ -243,12 +246,14 @@ def check_sequence(case, mon, ctx, lm, letters, is_torch):
     k, scale, bonus, eos = case['k'], case['scale'], case['bonus'], case['eos']
     dec = D.CTCPrefixLogRawNumpyDecoder(letters + [D.BLANK_SYMBOL], k=k, lm=lm, lm_scale=scale, insertion_bonus=bonus)
 
+    cur = {'seed': case['lm_seed']}
+
     def fresh():
         if is_torch:
-            raw = ctx.stubs.make_lstm_lm(letters, case['lm_seed'], dim=int(8 + case['lm_seed'] % 9), eos_first=(case['lm_seed'] // 2) % 2 == 1)
+            raw = ctx.stubs.make_lstm_lm(letters, cur['seed'], dim=int(8 + case['lm_seed'] % 9), eos_first=(case['lm_seed'] // 2) % 2 == 1)
             l2 = ctx.LMWrapper(raw, letters, torch.device('cpu'))
         else:
-            l2 = ctx.stubs.HashLM(C - 1, case['lm_seed'])
+            l2 = ctx.stubs.HashLM(C - 1, cur['seed'])
         return D.CTCPrefixLogRawNumpyDecoder(letters + [D.BLANK_SYMBOL], k=k, lm=l2, lm_scale=scale, insertion_bonus=bonus)
 
     def summary(boh, h):
@@ -259,6 +264,17 @@ def check_sequence(case, mon, ctx, lm, letters, is_torch):
             hs = np.asarray(h).reshape(-1).tolist()
         return hy, hs
     for n, lp in enumerate(mats):
+        if n == len(mats) - 1:
+            # the model behind the long-lived decoder is updated in place (adapted parameters loaded into the same object) before the last line
+            cur['seed'] = case['lm_seed'] + 36
+            if is_torch:
+                other = ctx.stubs.make_lstm_lm(letters, cur['seed'], dim=int(8 + case['lm_seed'] % 9), eos_first=(case['lm_seed'] // 2) % 2 == 1)
+                lm._lm.model.load_state_dict(other.model.state_dict())
+                lm._lm.decoder.load_state_dict(other.decoder.state_dict())
+            else:
+                lm.seed = cur['seed']
+                lm._rows.clear()
+            mon.count('lm_updated_in_place')
         eos_n = bool(eos or n % 2 == 1)        # end-of-line modelling on at least every other call
         got = summary(*dec(lp.copy(), model_eos=eos_n, return_h=True))
         exp = summary(*fresh()(lp.copy(), model_eos=eos_n, return_h=True))
@@ -281,10 +297,12 @@ def extra(mon, ctx):
     from pero_ocr.decoding import decoding_itf
     torch = ctx.torch
     letters = list('abc')
-    raw = ctx.stubs.make_lstm_lm(letters, 4242, dim=8, double=False)
-    language_model.torchscript_export(raw, os.path.join(ctx.tmpdir, 'lm.zip'))
     rng = np.random.default_rng([ctx.seed, 3, 777])
-    for scale in ('0', '0.0', '0.5', '2'):
+    for n_scale, scale in enumerate(('0', '0.0', '0.5', '2')):
+        # the LM file is replaced between the builds (same path, another model): every decoder gets the model that is in the file when it is built
+        raw = ctx.stubs.make_lstm_lm(letters, 4242 + n_scale, dim=8, double=False)
+        language_model.torchscript_export(raw, os.path.join(ctx.tmpdir, 'lm.zip'))
+        mon.count('lm_file_replaced_between_builds')
         cfg = configparser.ConfigParser()
         cfg.read_dict({'DECODER': {'TYPE': 'FAST-LOG-RAW', 'BEAM_SIZE': '4', 'LM_SCALE': scale, 'USE_CPU': 'yes', 'LM': './lm.zip'}})
         import contextlib
